@@ -1,5 +1,6 @@
 import LentilVerif.Lemmas.Spectrum
 import LentilVerif.Lemmas.SimpsExact
+import LentilVerif.Lemmas.SimpsInside
 import LentilVerif.Lemmas.Units
 /-! C15 — integration, binning, crop/trim/pad/append/resample keep the spectrum well-formed.
 All statements are about `Model/Spectrum.lean` (tied to lentil.radiometry.Spectrum by the per-step correspondence). -/
@@ -381,6 +382,36 @@ theorem bin_simps_nonneg_symmetric (s : Spectrum) (hwf : WF s) (hv : ∀ v ∈ s
           intro v hv'
           obtain ⟨x, _, rfl⟩ := List.mem_map.mp hv'
           exact interpAt_nonneg _ _ _ _ _ hwf.1 hv hfl hfr
+
+/-- … and with `ends='inside'` (float centres, no power preservation): the two quarter points the code inserts after the first
+and before the last centre keep the sample points non-decreasing, so the weights stay positive and the bins of a non-negative
+spectrum non-negative — Simpson non-negativity holds for BOTH end treatments (`bin_simps_nonneg`) -/
+theorem bin_simps_nonneg_inside (s : Spectrum) (hwf : WF s) (hv : ∀ v ∈ s.value, 0 ≤ v) (fl fr : ℚ)
+    (hfl : 0 ≤ fl) (hfr : 0 ≤ fr) (c : List ℚ) (hc : StrictInc c) (bins : List ℚ)
+    (h : bin s true false fl fr none c = .ok bins) : ∀ b ∈ bins, 0 ≤ b := by
+  simp only [bin, binRaw, if_true, sample] at h
+  split at h
+  · cases h
+  · rename_i raw hraw
+    split at hraw
+    · cases hraw
+    · split at hraw
+      · cases hraw
+      · rename_i f hf
+        split at hf
+        · cases hf
+        · cases hf; cases hraw; cases h
+          apply simpsBins_nonneg_adj _ _ (adjLe_simpsPoints_inside c hc)
+          intro v hv'
+          obtain ⟨x, _, rfl⟩ := List.mem_map.mp hv'
+          exact interpAt_nonneg _ _ _ _ _ hwf.1 hv hfl hfr
+
+theorem bin_simps_nonneg (s : Spectrum) (hwf : WF s) (hv : ∀ v ∈ s.value, 0 ≤ v) (sym : Bool) (fl fr : ℚ)
+    (hfl : 0 ≤ fl) (hfr : 0 ≤ fr) (c : List ℚ) (hc : StrictInc c) (bins : List ℚ)
+    (h : bin s true sym fl fr none c = .ok bins) : ∀ b ∈ bins, 0 ≤ b := by
+  cases sym
+  · exact bin_simps_nonneg_inside s hwf hv fl fr hfl hfr c hc bins h
+  · exact bin_simps_nonneg_symmetric s hwf hv fl fr hfl hfr c hc bins h
 
 /-- Simpson binning also returns one value per requested centre (both end treatments, float or integer-dtype centres) -/
 theorem binRaw_length_simps (s : Spectrum) (sym intC : Bool) (fl fr : ℚ) (c bins : List ℚ)
